@@ -107,6 +107,47 @@ def calls_named(P, fn, suffix):
     return [bi for bi, t in P.calls(fn) if t.get("f") and (t["f"]["name"].endswith(suffix))]
 
 
+def returns_call_result(P, g, suffix):
+    """g is a thin wrapper: exactly one call named *suffix, and g's return value is that call's result (copies only),
+    with no branch between entry and return other than unwinding."""
+    cs = [(bi, t) for bi, t in P.calls(g) if t.get("f") and t["f"]["name"].endswith(suffix)]
+    if len(cs) != 1:
+        return False
+    if any(b["t"]["k"] == "switch" for b in g.blocks):
+        return False
+    vals = {cs[0][1]["d"][0]}
+    writes0 = []
+    for b in g.blocks:
+        for st in b["s"]:
+            if st[0] != "a" or st[1][1]:
+                continue
+            rv = st[2]
+            src = op_local(rv["o"]) if rv["k"] == "use" else None
+            if st[1][0] == 0:
+                writes0.append(src is not None and src[0] in vals and not src[1])
+            elif src is not None and src[0] in vals and not src[1]:
+                vals.add(st[1][0])
+    if cs[0][1]["d"][0] == 0 and not cs[0][1]["d"][1]:
+        return not writes0
+    return bool(writes0) and all(writes0)
+
+
+def poll_sites(P, fn, suffix="InterruptRegister::interrupted"):
+    """Blocks of fn that poll the interrupt register: direct calls, or calls of a private wrapper returning the poll's result."""
+    out = []
+    for bi, t in P.calls(fn):
+        f = t.get("f")
+        if not f:
+            continue
+        if f["name"].endswith(suffix):
+            out.append(bi)
+            continue
+        g = P.fns.get(f["id"])
+        if g is not None and g.kind == "fn" and not g.impl and g.crate == fn.crate and returns_call_result(P, g, suffix):
+            out.append(bi)
+    return out
+
+
 def run_template_poll(P, rep, rule="R-PAIR.poll"):
     key = "<liquid_core::runtime::template::Template as liquid_core::runtime::renderable::Renderable>::render_to"
     fn = P.fn_by_key(key)
@@ -117,7 +158,7 @@ def run_template_poll(P, rep, rule="R-PAIR.poll"):
     bi, t = rc[0]
     s = ok_successor(P, fn, bi)
     h = loop_header(P, fn, bi)
-    polls = calls_named(P, fn, "InterruptRegister::interrupted")
+    polls = poll_sites(P, fn)
     if s is None or h is None or not polls:
         rep.viol(rule, "Template::render_to", P.where(fn), "element loop / success edge / interrupted() poll not found")
         return
@@ -164,7 +205,7 @@ def check_loop_reset(P, rep, key, label, rule="R-PAIR.reset"):
     if not body_calls:
         rep.viol(rule, site, P.where(fn), "no body render inside a loop found")
         return
-    resets = calls_named(P, fn, "InterruptRegister::reset")
+    resets = poll_sites(P, fn, "InterruptRegister::reset")
     n = 0
     for bi, t in body_calls:
         n += 1
